@@ -33,7 +33,9 @@ TypeOK == /\ rb.wpos \in 0..Size /\ rb.idx \in 0..(IovN - 2) /\ rb.imax \in 0..(
 
 (* corpus emission for the replay on the real r_buf_t: one line per visited state (simulation) *)
 Emit == IF EmitMode THEN PrintT(ToJson([lvl |-> TLCGet("level"), ev |-> ev, st |-> Proj,
-                                        rpos |-> [r \in Readers |-> rpos[r]], viol |-> viol]))
+                                        rpos |-> [r \in Readers |-> rpos[r]], viol |-> viol,
+                                        aux |-> [got |-> got, wcount |-> wcount]]))
         ELSE TRUE
 BoundEmit == Bound /\ Emit
+EmitInv == Bound => Emit      \* as an INVARIANT: evaluated once per distinct state (edge enumeration)
 =============================================================================
